@@ -89,7 +89,7 @@ scrape_configs:
       - source_labels: [rack]
         regex: "rack (.+)"
         target_label: rack_id
-        replacement: "id $1"
+        replacement: "id $1 ${HOSTNAME} ${VERIF_C16_ENV}"
     metric_relabel_configs:
       - source_labels: [__name__]
         regex: "go_.*"
@@ -440,7 +440,10 @@ func init() {
 			f := filepath.Join(scratch, fmt.Sprintf("c16-%d-%d.yml", c.Part, idx))
 			os.WriteFile(f, []byte(text), 0o644)
 			defer os.Remove(f)
-			out, err := exec.Command(self, "-child", "c16hash", f).Output()
+			cmd := exec.Command(self, "-child", "c16hash", f)
+			// the other process lives in another pod: its environment differs
+			cmd.Env = append(os.Environ(), "HOSTNAME=prometheus-shard-7", "VERIF_C16_ENV=from-the-other-process")
+			out, err := cmd.Output()
 			if err != nil {
 				chk.Fatalf("child failed: %v", err)
 			}
@@ -580,6 +583,38 @@ func init() {
 					r.Violate("C16:process-state-dependent:"+name, "same-content-same-hash", fmt.Sprintf("%s: hash %s, a fresh process computes %s for the same content", name, cases[name], baseHash), idx,
 						&c16Replay{Property: "C16", Clause: "same-content-same-hash", Edit: name, A: c16Base, HashA: baseHash, HashB: cases[name]})
 				}
+			}
+		}
+		// (1c') a large configuration (600 jobs, well over 64 KiB of text): an edit of a relabel regex near the start,
+		// in the middle and at the very end changes the hash, and pairwise differently
+		if c.Part == 0 {
+			idx++
+			big := func(edit int) string {
+				var sb strings.Builder
+				sb.WriteString("scrape_configs:\n")
+				for j := 0; j < 600; j++ {
+					re := fmt.Sprintf("keep-%d-.*", j)
+					if j == edit {
+						re += "|edited"
+					}
+					fmt.Fprintf(&sb, "- job_name: job-%04d\n  relabel_configs:\n  - {source_labels: [__address__], regex: %q, action: keep}\n  static_configs:\n  - targets: [\"host-%d:9100\"]\n", j, re, j)
+				}
+				return sb.String()
+			}
+			h0, err := c16Hash(big(-1))
+			if err != nil {
+				chk.Fatalf("large configuration rejected: %v", err)
+			}
+			seenH := map[string]int{h0: -1}
+			for _, ed := range []int{0, 100, 300, 500, 599} {
+				h, _ := c16Hash(big(ed))
+				r.States++
+				r.Transitions++
+				if prev, dup := seenH[h]; dup {
+					r.Violate("C16:blind:regex-in-large-config", "edit-changes-hash", fmt.Sprintf("configuration of 600 jobs (%d bytes): editing the relabel regex of job %d gives the same hash as %d (-1 = unedited)", len(big(-1)), ed, prev), idx,
+						&c16Replay{Property: "C16", Clause: "edit-changes-hash", Edit: fmt.Sprintf("regex of job %d of 600", ed), HashA: h0, HashB: h})
+				}
+				seenH[h] = ed
 			}
 		}
 		// (1d) histories of one manager: every sequence (depth <= 3) of reloads from a file and from pushed bytes,
